@@ -186,6 +186,7 @@ enum Intent {
     IncreaseDelay { delta: u32 },
     RoleChange { effect: Effect },
     UpdateRestart,
+    SetProvider,
 }
 
 #[derive(Clone, Debug)]
@@ -195,6 +196,8 @@ struct Tx {
     intent: Intent,
     role: &'static str,
     op: &'static str,
+    /// Documented privilege of the (timelock) instruction: (instruction name, required role).
+    privileged: Option<(&'static str, String)>,
 }
 
 impl Tx {
@@ -214,6 +217,8 @@ struct Sim<'a> {
     other_keeper: Pubkey,
     m: Model,
     pending: Vec<(usize, Tx, &'static str)>,
+    token_map: Pubkey,
+    token: Pubkey,
 }
 
 fn domain_flag(d: u8) -> Option<gmsol_store::states::feature::DomainDisabledFlag> {
@@ -233,7 +238,18 @@ impl<'a> Sim<'a> {
         let (mut w, d) = BASE
             .get_or_init(|| {
                 let mut w = World::new(1_700_000_000, 1000);
-                let d: Dep = deploy::deploy_store(&mut w);
+                // store + token map with one token (needed by the `set_expected_price_provider` bypass)
+                let d: Dep = deploy::deploy_full(
+                    &mut w,
+                    &deploy::DeployOpts {
+                        tokens: vec![deploy::TokenSpec { name: "SOL", decimals: 9, precision: 4, synthetic: false, schema: 3, heartbeat: 120 }],
+                        markets: vec![],
+                        n_users: 0,
+                        user_token_amount: 0,
+                        start_ts: 1_700_000_000,
+                        start_slot: 1000,
+                    },
+                );
                 for r in &ROLE_NAMES[0..6] {
                     expect_ok(
                         "enable tl role",
@@ -303,7 +319,7 @@ impl<'a> Sim<'a> {
             m.factors.insert(k.to_string(), *store.get_factor(k).expect("factor"));
         }
         m.holding = *store.get_address("holding").expect("holding");
-        Sim { cfg, w, p, principals, n_actors, other_keeper: d.keeper, m, pending: vec![] }
+        Sim { cfg, w, p, principals, n_actors, other_keeper: d.keeper, m, pending: vec![], token_map: d.token_map, token: d.tokens[0].mint }
     }
 
     fn actor(&self, i: u8) -> Pubkey {
@@ -543,7 +559,7 @@ impl<'a> Sim<'a> {
             data: ix.data.clone(),
         };
         let buf = Buf { exec, rent_receiver: authority, expected, effect, state: BState::Created, live: true };
-        Tx { ixs: vec![top], opts: TxOpts::default(), intent: Intent::Create { key, buf }, role: self.actor_label(by), op: "create" }
+        Tx { ixs: vec![top], opts: TxOpts::default(), intent: Intent::Create { key, buf }, role: self.actor_label(by), op: "create", privileged: Some(("create_instruction_buffer", "TIMELOCK_KEEPER".to_string())) }
     }
 
     fn build_execute(&self, key: Pubkey, b: &Buf, by: u8, twist: Twist) -> Tx {
@@ -578,7 +594,7 @@ impl<'a> Sim<'a> {
             tl::instruction::ExecuteInstruction {},
         );
         ix.accounts.extend(remaining);
-        Tx { ixs: vec![ix], opts, intent: Intent::Execute { key }, role: self.actor_label(by), op: "execute" }
+        Tx { ixs: vec![ix], opts, intent: Intent::Execute { key }, role: self.actor_label(by), op: "execute", privileged: Some(("execute_instruction", "TIMELOCK_KEEPER".to_string())) }
     }
 
     fn read_delay(&self) -> Option<u32> {
@@ -637,9 +653,70 @@ impl<'a> Sim<'a> {
         }
     }
 
+    /// C19: the landed privileged transaction `tx`, replayed on forks of its pre-state with the authority replaced
+    /// by (a) an address without any role and (b) an address holding every role except the required one, must be
+    /// rejected and leave every account unchanged.
+    fn twins(&self, pre: &World, tx: &Tx, ix_name: &'static str, required: &str, obs: &mut Obs) {
+        for (variant, n) in [("no_role", 0u64), ("every_other_role", 1)] {
+            let twin = derived_key("twin", n);
+            let mut fork = pre.clone();
+            fork.fund(&twin, 1_000_000_000_000);
+            if n == 1 {
+                let Some(mut store) = read_pod::<Store>(&fork, &self.p.store) else { return };
+                let names: Vec<String> = store.role().roles().filter_map(|r| r.ok().map(|x| x.to_string())).collect();
+                for r in &names {
+                    if r != required {
+                        let _ = store.grant(&twin, r);
+                    }
+                }
+                let bytes = bytemuck::bytes_of(&store);
+                if let Some(a) = fork.accounts.get_mut(&self.p.store) {
+                    a.data[8..8 + bytes.len()].copy_from_slice(bytes);
+                }
+            }
+            let mut ixs = tx.ixs.clone();
+            let Some(first) = ixs.first_mut().and_then(|ix| ix.accounts.first_mut()) else { return };
+            if !first.is_signer {
+                return;
+            }
+            first.pubkey = twin;
+            let snapshot = fork.accounts.clone();
+            let out = fork.process_tx(&ixs, &TxOpts::default());
+            obs.fault("byzantine_twin");
+            obs.probe(&format!("c19_twin:timelock.{ix_name}"));
+            obs.outcome(if n == 0 { "twin_no_role" } else { "twin_every_other_role" }, ix_name, &out.class());
+            obs.event(|| format!("TWIN {variant} of {ix_name} -> {}", out.class()));
+            if !obs.require(
+                !out.ok,
+                "C19",
+                "stranger_accepted",
+                || format!("ix={ix_name},variant={variant},program=timelock"),
+                || format!("timelock {ix_name} landed when signed by an address {} (required: {required})", if n == 0 { "without any role".to_string() } else { format!("holding every role except {required}") }),
+            ) {
+                return;
+            }
+            if !obs.require(
+                fork.accounts == snapshot,
+                "C19",
+                "rejection_changed_state",
+                || format!("ix={ix_name},variant={variant},program=timelock"),
+                || format!("rejected timelock {ix_name} ({}) changed accounts", out.class()),
+            ) {
+                return;
+            }
+        }
+    }
+
     fn deliver(&mut self, tx: &Tx, obs: &mut Obs) {
         let delay_before = self.read_delay();
+        let pre = (self.cfg.twins && tx.privileged.is_some()).then(|| self.w.clone());
         let out = self.w.process_tx(&tx.ixs, &tx.opts);
+        if let (true, Some(pre), Some((ix_name, required))) = (out.ok, pre, tx.privileged.as_ref()) {
+            self.twins(&pre, tx, ix_name, required, obs);
+            if obs.should_stop() {
+                return;
+            }
+        }
         let class = out.class();
         obs.outcome(tx.role, tx.op, &class);
         obs.probe(&format!("out:{}:{}", tx.op, class));
@@ -783,6 +860,7 @@ impl<'a> Sim<'a> {
                 self.m.apply(&e);
             }
             Intent::UpdateRestart => obs.probe("restart_slot_updated"),
+            Intent::SetProvider => obs.probe("expected_provider_changed"),
         }
     }
 
@@ -991,7 +1069,7 @@ impl<'a> Sim<'a> {
                     },
                     tl::instruction::InitializeExecutor { role: EXEC_ROLES[e].to_string() },
                 );
-                let tx = Tx { ixs: vec![ix], opts: TxOpts::default(), intent: Intent::InitExecutor, role: self.actor_label(*by), op: "init_executor" };
+                let tx = Tx { ixs: vec![ix], opts: TxOpts::default(), intent: Intent::InitExecutor, role: self.actor_label(*by), op: "init_executor", privileged: None };
                 self.deliver(&tx, obs);
             }
             Step::StoreTransfer { by, to } => {
@@ -1000,7 +1078,7 @@ impl<'a> Sim<'a> {
                     gmsol_store::accounts::TransferStoreAuthority { authority: self.actor(*by), store: p.store, next_authority: to },
                     gmsol_store::instruction::TransferStoreAuthority {},
                 );
-                let tx = Tx { ixs: vec![ix], opts: TxOpts::default(), intent: Intent::StoreTransfer { to }, role: self.actor_label(*by), op: "store_transfer_authority" };
+                let tx = Tx { ixs: vec![ix], opts: TxOpts::default(), intent: Intent::StoreTransfer { to }, role: self.actor_label(*by), op: "store_transfer_authority", privileged: None };
                 self.deliver(&tx, obs);
             }
             Step::StoreAccept { by } => {
@@ -1009,7 +1087,7 @@ impl<'a> Sim<'a> {
                     gmsol_store::accounts::AcceptStoreAuthority { next_authority: who, store: p.store },
                     gmsol_store::instruction::AcceptStoreAuthority {},
                 );
-                let tx = Tx { ixs: vec![ix], opts: TxOpts::default(), intent: Intent::StoreAccept { who }, role: self.actor_label(*by), op: "store_accept_authority" };
+                let tx = Tx { ixs: vec![ix], opts: TxOpts::default(), intent: Intent::StoreAccept { who }, role: self.actor_label(*by), op: "store_accept_authority", privileged: None };
                 self.deliver(&tx, obs);
             }
             Step::InitConfig { by, delay } => {
@@ -1025,7 +1103,7 @@ impl<'a> Sim<'a> {
                     },
                     tl::instruction::InitializeConfig { delay: *delay },
                 );
-                let tx = Tx { ixs: vec![ix], opts: TxOpts::default(), intent: Intent::InitConfig { delay: *delay }, role: self.actor_label(*by), op: "init_config" };
+                let tx = Tx { ixs: vec![ix], opts: TxOpts::default(), intent: Intent::InitConfig { delay: *delay }, role: self.actor_label(*by), op: "init_config", privileged: Some(("initialize_config", "TIMELOCK_ADMIN".to_string())) };
                 self.deliver(&tx, obs);
             }
             Step::Create { slot, by, exec, spec, net } => {
@@ -1078,7 +1156,7 @@ impl<'a> Sim<'a> {
                     )
                 };
                 let op = if used.len() > 1 || *batch { "approve_batch" } else { "approve" };
-                let tx = Tx { ixs: vec![ix], opts: TxOpts::default(), intent: Intent::Approve { keys: used, by: authority }, role: self.actor_label(*by), op };
+                let tx = Tx { ixs: vec![ix], opts: TxOpts::default(), intent: Intent::Approve { keys: used, by: authority }, role: self.actor_label(*by), op, privileged: Some((if op == "approve" { "approve_instruction" } else { "approve_instructions" }, tld_name(exec))) };
                 self.send(i, tx, *net, obs);
             }
             Step::Cancel { slots, by, batch, net } => {
@@ -1123,7 +1201,7 @@ impl<'a> Sim<'a> {
                     )
                 };
                 let op = if *batch || keys.len() > 1 { "cancel_batch" } else { "cancel" };
-                let tx = Tx { ixs: vec![ix], opts: TxOpts::default(), intent: Intent::Cancel { keys }, role: self.actor_label(*by), op };
+                let tx = Tx { ixs: vec![ix], opts: TxOpts::default(), intent: Intent::Cancel { keys }, role: self.actor_label(*by), op, privileged: Some((if op == "cancel" { "cancel_instruction" } else { "cancel_instructions" }, "TIMELOCK_ADMIN".to_string())) };
                 self.send(i, tx, *net, obs);
             }
             Step::Execute { slot, by, at, twist, net } => {
@@ -1166,7 +1244,7 @@ impl<'a> Sim<'a> {
                 if self.m.delay.map_or(false, |d| d + *delta as u64 > u32::MAX as u64) {
                     obs.probe("delay_overflow_attempt");
                 }
-                let tx = Tx { ixs: vec![ix], opts: TxOpts::default(), intent: Intent::IncreaseDelay { delta: *delta }, role: self.actor_label(*by), op: "increase_delay" };
+                let tx = Tx { ixs: vec![ix], opts: TxOpts::default(), intent: Intent::IncreaseDelay { delta: *delta }, role: self.actor_label(*by), op: "increase_delay", privileged: Some(("increase_delay", "TIMELOCK_ADMIN".to_string())) };
                 self.send(i, tx, *net, obs);
             }
             Step::Role { via, op, user, role, by } => {
@@ -1203,7 +1281,7 @@ impl<'a> Sim<'a> {
                         "store_disable_role",
                     ),
                 };
-                let tx = Tx { ixs: vec![ix], opts: TxOpts::default(), intent: Intent::RoleChange { effect }, role: self.actor_label(*by), op: name };
+                let tx = Tx { ixs: vec![ix], opts: TxOpts::default(), intent: Intent::RoleChange { effect }, role: self.actor_label(*by), op: name, privileged: (*via == Via::Bypass).then(|| ("revoke_role", "__TLD_ADMIN".to_string())) };
                 self.deliver(&tx, obs);
             }
             Step::Clock(c) => match c {
@@ -1227,11 +1305,6 @@ impl<'a> Sim<'a> {
                         self.advance_to(EXTREME_TS, obs);
                     }
                 }
-                ClockStep::Regress(n) => {
-                    obs.fault("clock_regression");
-                    self.w.clock.unix_timestamp -= *n as i64;
-                    self.w.clock.slot += 1;
-                }
             },
             Step::Restart => {
                 obs.fault("cluster_restart");
@@ -1243,10 +1316,34 @@ impl<'a> Sim<'a> {
                     gmsol_store::accounts::UpdateLastRestartedSlot { authority: self.actor(*by), store: p.store },
                     gmsol_store::instruction::UpdateLastRestartedSlot {},
                 );
-                let tx = Tx { ixs: vec![ix], opts: TxOpts::default(), intent: Intent::UpdateRestart, role: self.actor_label(*by), op: "update_restart_slot" };
+                let tx = Tx { ixs: vec![ix], opts: TxOpts::default(), intent: Intent::UpdateRestart, role: self.actor_label(*by), op: "update_restart_slot", privileged: None };
                 self.deliver(&tx, obs);
             }
             Step::Crash { .. } => obs.fault("party_crash"),
+            Step::SetProvider { by, provider } => {
+                let ix = tl_ix(
+                    tl::accounts::SetExpectedPriceProvider {
+                        authority: self.actor(*by),
+                        store: p.store,
+                        token_map: self.token_map,
+                        executor: p.execs[3],
+                        wallet: p.wallets[3],
+                        token: self.token,
+                        store_program: gmsol_store::ID,
+                        system_program: system_program::ID,
+                    },
+                    tl::instruction::SetExpectedPriceProvider { new_expected_price_provider: *provider },
+                );
+                let tx = Tx {
+                    ixs: vec![ix],
+                    opts: TxOpts::default(),
+                    intent: Intent::SetProvider,
+                    role: self.actor_label(*by),
+                    op: "bypass_set_expected_price_provider",
+                    privileged: Some(("set_expected_price_provider", "__TLD_MARKET_KEEPER".to_string())),
+                };
+                self.deliver(&tx, obs);
+            }
         }
     }
 }
@@ -1259,8 +1356,8 @@ impl Scenario for Timelock {
         "timelock_lifecycle"
     }
 
-    fn generate(&self, seed: u64, run: u64, tier: Tier, _focus: &str) -> (Cfg, Vec<Step>) {
-        generate(seed, run, tier)
+    fn generate(&self, seed: u64, run: u64, tier: Tier, focus: &str) -> (Cfg, Vec<Step>) {
+        generate(seed, run, tier, focus)
     }
 
     fn execute(&self, cfg: &Cfg, steps: &[Step], obs: &mut Obs) {
